@@ -44,29 +44,35 @@ func (f *Func) CFG() *CFG {
 		return true
 	}
 	g := cfg.New(f.Body, mayReturn)
+	bodies := []ast.Node{f.Body}
+	for _, h := range f.spliceInlined(g, mayReturn, 0) {
+		bodies = append(bodies, h.Body)
+	}
 	c := &CFG{F: f, G: g, loc: map[ast.Node]Loc{}, conds: map[ast.Expr]ast.Expr{}, isCnd: map[ast.Expr]bool{},
 		preds: map[*cfg.Block][]*cfg.Block{}}
 	// condition expressions
-	walkOwn(f.Body, func(n ast.Node) bool {
-		switch s := n.(type) {
-		case *ast.IfStmt:
-			c.isCnd[s.Cond] = true
-		case *ast.ForStmt:
-			if s.Cond != nil {
+	for _, body := range bodies {
+		walkOwn(body, func(n ast.Node) bool {
+			switch s := n.(type) {
+			case *ast.IfStmt:
 				c.isCnd[s.Cond] = true
-			}
-		case *ast.SwitchStmt:
-			for _, cl := range s.Body.List {
-				for _, e := range cl.(*ast.CaseClause).List {
-					c.isCnd[e] = true
-					if s.Tag != nil {
-						c.conds[e] = s.Tag
+			case *ast.ForStmt:
+				if s.Cond != nil {
+					c.isCnd[s.Cond] = true
+				}
+			case *ast.SwitchStmt:
+				for _, cl := range s.Body.List {
+					for _, e := range cl.(*ast.CaseClause).List {
+						c.isCnd[e] = true
+						if s.Tag != nil {
+							c.conds[e] = s.Tag
+						}
 					}
 				}
 			}
-		}
-		return true
-	})
+			return true
+		})
+	}
 	for _, b := range g.Blocks {
 		if !b.Live {
 			continue
@@ -85,27 +91,29 @@ func (f *Func) CFG() *CFG {
 		}
 	}
 	// select communications take effect at the start of their case body
-	walkOwn(f.Body, func(n ast.Node) bool {
-		sel, ok := n.(*ast.SelectStmt)
-		if !ok {
-			return true
-		}
-		for _, cl := range sel.Body.List {
-			cc := cl.(*ast.CommClause)
-			if cc.Comm == nil {
-				continue
+	for _, body := range bodies {
+		walkOwn(body, func(n ast.Node) bool {
+			sel, ok := n.(*ast.SelectStmt)
+			if !ok {
+				return true
 			}
-			for _, b := range g.Blocks {
-				if b.Live && b.Kind == cfg.KindSelectCaseBody && b.Stmt == ast.Stmt(cc) {
-					walkOwn(cc.Comm, func(x ast.Node) bool {
-						c.loc[x] = Loc{b, -1}
-						return true
-					})
+			for _, cl := range sel.Body.List {
+				cc := cl.(*ast.CommClause)
+				if cc.Comm == nil {
+					continue
+				}
+				for _, b := range g.Blocks {
+					if b.Live && b.Kind == cfg.KindSelectCaseBody && b.Stmt == ast.Stmt(cc) {
+						walkOwn(cc.Comm, func(x ast.Node) bool {
+							c.loc[x] = Loc{b, -1}
+							return true
+						})
+					}
 				}
 			}
-		}
-		return true
-	})
+			return true
+		})
+	}
 	f.cfg = c
 	return c
 }
